@@ -76,7 +76,7 @@ LEVEL_TEXT = ("Proved in Lean 4 about the model that the driver runs, for ALL by
               "tied by the op `upg` (head + frame bytes written in one segment, a WebSocketServer subclass linked to the HttpServer reads what is left on the "
               "descriptor at the hand-off; `upgf`: the same stream delivered in two segments cut inside the head or the frame, the second arriving while the server "
               "reads - the answer must not depend on the cut; in the model a fragmentation is a list of segments whose concatenation the blocking reads see). ONE DECODING: (path_decoded_once, path_decoded_once_any, path_is_one_pass_decoding, decode_inverts_one_escape) a path text sent with its `%` escaped as `%25` arrives as "
-              "that text (`%252e%252e` is `%2e%2e`, never `..`), for every path; tied by tg/req/dec as before. EXPECT: (read_faithful_expect, read_faithful_chunked_expect, expect_interim_answer, "
+              "that text (`%252e%252e` is `%2e%2e`, never `..`), for every path; tied by tg/req/dec as before. EXPECT: (read_faithful_expect, read_faithful_chunked_expect, serve_faithful_expect, expect_interim_answer, "
               "wellformed_is_expect_free) read(serialize q ++ rest) = (q, rest) also for every well-formed q that carries an Expect field (WellFormedX / HeadOkX = WellFormed / HeadOk without their no-Expect clause; no body, a Content-Length body, or a chunked body in any accepted spelling - there the answer to 100-continue is always 100 Continue), "
               "and the only bytes written to the peer are the interim answer: `HTTP/1.1 100 Continue` for `Expect: 100-continue` and a body shorter than 128000000 bytes, `HTTP/1.1 417 Too big` from there on (the body is read all the same), "
               "nothing for any other Expect value or none; tied by req/srv/tcp (out= compares the bytes written back) on generated well-formed requests with an Expect field at a random header position, whole, pipelined and cut, and on "
@@ -102,7 +102,7 @@ LEVEL_NOTE = ("Trusted: Lean kernel, harness + watchdog, the python framing pars
               "The Range parser is modelled (AslModel/HttpRange.lean: rangeAnswer; putFile's outcome is C10's rangeOf, imported, not copied) and checked by `rng` on "
               "NUL-free and NUL-bearing values without CR/LF; bytes actually sent for a 206 are C10's (fileSlice), here only their number is compared. "
               "If-Modified-Since handling of the file server is covered by the safety oracle of the `file` op only (no byte "
-              "from outside the root, legal status codes, ASan); plain GET mapping is model-checked by `fmap`. The Expect theorems are stated on read (one request, any socket state for the chunked one); the interim answer inside the keep-alive loop is K only (serve_faithful keeps its no-Expect clause). Partial: the header "
+              "from outside the root, legal status codes, ASan); plain GET mapping is model-checked by `fmap`. serve_faithful_expect states that the keep-alive loop dispatches every pipelined well-formed request with or without Expect (Content-Length / no body) in order and reads the whole stream; the exact bytes the loop writes (interim answers interleaved with the responses) are K only (out= of srv/tcp). Partial: the header "
               "hypotheses of the faithful-read theorems are stated on hdrDic (the fold), the sorted-map lemma `other keys unaffected` "
               "is not proved here; String::replace/contains are modelled directly as leftmost removal / scan for `..` (tied by K on "
               "every target over {. / %2e %2f %25 a} up to the stated length).")
